@@ -1,4 +1,4 @@
-"""C10 second stage: the driver's in-memory free-core copy (specs/batchdb/DriverMem.tla) bound to the REAL wrappers of
+"""C10 second stage: the driver's in-memory free-core copy (specs/batchdb/DriverMem.tla, DriverOut.tla: + the DELETE requests it sends) bound to the REAL wrappers of
 batch/batch/driver/job.py (schedule_job, mark_job_started, mark_job_complete, unschedule_job) and the REAL
 batch/batch/driver/instance.py Instance objects, over the real SQL on MiniMySQL.
 """
@@ -29,6 +29,30 @@ class FakeInstColl:
         pass
 
 
+class RecordingSession:
+    """the driver's HTTP client to the workers: records which <<job, instance>> were told to stop (DELETE .../jobs/{j}/delete)"""
+
+    def __init__(self, ip_to_inst):
+        self.ip_to_inst = ip_to_inst
+        self.deleted = set()
+        self.log = []
+
+    async def delete(self, url, *a, **k):
+        import re
+
+        self.log.append(("DELETE", url))
+        m = re.match(r"http://([0-9.]+):5000/api/v1alpha/batches/(\d+)/jobs/(\d+)/delete$", url)
+        if not m:
+            raise RuntimeError(f"unexpected DELETE {url}")
+        self.deleted.add((int(m.group(3)), self.ip_to_inst[m.group(1)]))
+
+    async def post(self, url, *a, **k):
+        self.log.append(("POST", url))
+
+    async def patch(self, url, *a, **k):
+        self.log.append(("PATCH", url))
+
+
 class ICM:
     def __init__(self):
         self.instances = {}
@@ -54,8 +78,10 @@ class MemImpl(B.Impl):
         app["cancel_ready_state_changed"] = w.loop.call_in_loop(asyncio.Event)
         app["driver"] = type("D", (), {"inst_coll_manager": self.icm})()
         app["resource_name_to_id"] = {}
+        self.session = RecordingSession({f"10.0.0.{n + 1}": i for n, i in enumerate(p.insts)})
+        app[CommonAiohttpAppKeys.CLIENT_SESSION] = self.session
         for i in p.insts:
-            self.icm.instances[i] = Instance(app, self.ic, i, "pending", p.inst_cores, p.inst_cores, 0, 0, 0, None, 1, "us-central1-a",
+            self.icm.instances[i] = Instance(app, self.ic, i, "pending", p.inst_cores, p.inst_cores, 0, 0, 0, f"10.0.0.{list(p.insts).index(i) + 1}", 1, "us-central1-a",
                                             "n1-standard-16", True, None)
         self._saved_job_config = dj.job_config
 
@@ -104,7 +130,7 @@ class MemImpl(B.Impl):
             return r
         if name == "MActivate":
             (i,) = args
-            return w.run(I[i].activate("10.0.0.9", w.now))
+            return w.run(I[i].activate(f"10.0.0.{list(p.insts).index(i) + 1}", w.now))
         if name == "MDeactivate":
             i, t = args
             return w.run(I[i].deactivate("deactivated", t))
@@ -120,10 +146,45 @@ class MemImpl(B.Impl):
         st = super().project()
         st["mfree"] = {i: self.icm.instances[i].free_cores_mcpu for i in self.p.insts}
         st["mst"] = {i: self.icm.instances[i].state for i in self.p.insts}
+        st["told"] = frozenset(self.session.deleted)
         return st
 
 
-COMPARE = B.COMPARE + ["mfree", "mst"]
+COMPARE = B.COMPARE + ["mfree", "mst", "told"]
+
+
+def _label_to_call(lab):
+    name, args = tlc.parse_action_label(lab)
+    args = [str(a) if isinstance(a, tlaval.Sym) else a for a in args]
+    if name.startswith("O"):
+        name = "M" + name[1:]
+    return name, args
+
+
+def _expect(node):
+    exp = B.spec_view(node)
+    exp["mfree"] = {str(k): v for k, v in node["mfree"].items()}
+    exp["mst"] = {str(k): str(v) for k, v in node["mst"].items()}
+    exp["told"] = frozenset((int(x[0]), str(x[1])) for x in node["told"])
+    return exp
+
+
+def _save(impl):
+    I = impl.icm.instances
+    return {"db": impl.w.eng.save_state(), "mem": {i: (I[i]._state, I[i]._free_cores_mcpu, I[i]._failed_request_count, I[i].ip_address) for i in I},
+            "told": set(impl.session.deleted)}
+
+
+def _load(impl, st):
+    impl.w.eng.load_state(st["db"])
+    for i, (state, free, frc, ip) in st["mem"].items():
+        o = impl.icm.instances[i]
+        o._state, o._free_cores_mcpu, o._failed_request_count, o.ip_address = state, free, frc, ip
+    impl.session.deleted = set(st["told"])
+
+
+ADAPTER = {"make": lambda p, seed: MemImpl(p, seed=seed), "apply": lambda impl, lab: impl.apply(*_label_to_call(lab)), "expect": _expect,
+           "observe": lambda impl: {x: v for x, v in impl.project().items() if x in COMPARE}, "save": _save, "load": _load}
 
 
 def mem_programs():
@@ -140,8 +201,8 @@ def mem_programs():
 
 def run_tlc_mem(ctx, p, dump=True, simulate=None, depth=None):
     name = f"DM_{p.name}"
-    mod = B.mc_module(p, name).replace("EXTENDS BatchDBLive", "EXTENDS DriverMem")
-    cfg = B.mc_cfg(p, B.ALL_AVOID, ["C10_Mem", "C10_MemState", "C10_Free"], []).replace("INIT Init", "INIT MInit").replace("NEXT Next", "NEXT MNext")
+    mod = B.mc_module(p, name).replace("EXTENDS BatchDBLive", "EXTENDS DriverOut")
+    cfg = B.mc_cfg(p, B.ALL_AVOID, ["C10_Mem", "C10_MemState", "C10_Free", "C39_EndedAttemptsToldToStop"], []).replace("INIT Init", "INIT OInit").replace("NEXT Next", "NEXT ONext")
     wd = tlc.prepare_dir(ctx.build / f"mem_{p.name}", ["batchdb"], {f"{name}.tla": mod, f"{name}.cfg": cfg})
     res = tlc.run(wd, name, f"{name}.cfg", workers=min(ctx.workers, 8), dump="graph" if dump and simulate is None else None,
                   simulate=simulate, depth=depth, seed=ctx.seed + 3 if simulate else None, timeout=3000)
@@ -156,12 +217,15 @@ def replay_walk(ctx, p, steps, seed):
         for lab, dst in steps:
             name, args = tlc.parse_action_label(lab)
             args = [str(a) if isinstance(a, tlaval.Sym) else a for a in args]
+            if name.startswith("O"):
+                name = {"OSelect": "MSelect", "OSchedule": "MSchedule", "OUnschedule": "MUnschedule"}.get(name, "M" + name[1:])
             path.append(lab)
             impl.apply(name, args)
             got = impl.project()
             exp = B.spec_view(dst)
             exp["mfree"] = {str(k): v for k, v in dst["mfree"].items()}
             exp["mst"] = {str(k): str(v) for k, v in dst["mst"].items()}
+            exp["told"] = frozenset((int(x[0]), str(x[1])) for x in dst["told"])
             d = B.diff(exp, {x: got[x] for x in COMPARE})
             if d:
                 return len(path), dict(path=list(path), diff=d)
@@ -170,7 +234,7 @@ def replay_walk(ctx, p, steps, seed):
         impl.close()
 
 
-def run_memory_stage(ctx):
+def run_memory_stage(ctx, budget_quick=25):
     P = mem_programs()
     progs = ["mem1"] if ctx.quick else ["mem1", "mem2i"]
     total = 0
@@ -184,25 +248,23 @@ def run_memory_stage(ctx):
         if res.violations:
             continue
         g = tlc.parse_dot(wd / "graph.dot")
-        walks = walk.cover_walks(g, rng=random.Random(ctx.seed))
-        random.Random(ctx.seed + 1).shuffle(walks)
-        deadline = time.time() + (25 if ctx.quick else 300)
+        deadline = time.time() + (budget_quick if ctx.quick else 300)
         covered = set()
-        for wk in walks:
-            if time.time() > deadline:
-                break
-            steps = [(l, g.nodes[d]) for _s, l, d in wk]
-            k, mism = replay_walk(ctx, p, steps, ctx.seed + nw)
-            nw += 1
-            total += k
-            covered.update(wk[:k])
-            if mism:
-                lab = tlc.parse_action_label(mism["path"][-1])[0]
-                touched = sorted({x.split(".")[0] for x in mism["diff"]})
-                ctx.violation(f"memreplay:{lab}:{','.join(t for t in touched if t in ('mfree', 'mst', 'inst', 'att'))}", {"program": n, **mism})
-                break
-        ctx.cov.setdefault("memory_replay", []).append({"program": n, "walks": nw, "edges_covered": len(covered), "edges": len(set(g.edges)),
-                                                        "nodes": len(g.nodes)})
+        # rewinding traversal (database and in-memory instance state restored in place): every edge class, then the remaining edges
+        csteps, cdone, ctotal, mism1, _e = B.replay_class_tree(p, g, seed=ctx.seed + nw, deadline=time.time() + 2.5 * (deadline - time.time()),
+                                                               covered=covered, adapter=ADAPTER)
+        total += csteps
+        mism = mism1
+        if not mism:
+            esteps, _d, _t, mism, _e = B.replay_class_tree(p, g, seed=ctx.seed + nw + 1, deadline=deadline, covered=covered, all_edges=True, adapter=ADAPTER)
+            total += esteps
+        nw += B.replay_class_tree.paths
+        for m in mism[:1]:
+            lab = tlc.parse_action_label(m["label"])[0] if m["label"] != "<init>" else "init"
+            touched = sorted({x.split(".")[0] for x in m["diff"]})
+            ctx.violation(f"memreplay:{lab}:{','.join(t for t in touched if t in ('mfree', 'mst', 'inst', 'att', 'told'))}", {"program": n, **m})
+        ctx.cov.setdefault("memory_replay", []).append({"program": n, "paths": nw, "edges_covered": len(covered), "edges": len(set(g.edges)),
+                                                        "nodes": len(g.nodes), "edge_classes": ctotal, "edge_classes_exercised": cdone})
     if not ctx.quick:
         p = P["mem2"]
         res, wd = run_tlc_mem(ctx, p, dump=False)
